@@ -1,7 +1,7 @@
 import GrolProofs.SaveOrder
 import GrolProofs.SaveLines
 import GrolProofs.SaveRead
-import Grol.Lexer
+import GrolProofs.SaveQuote
 /-
 C14 — saved state loads back to the same state.
 
@@ -16,11 +16,12 @@ What is proved here, for every store (unbounded):
 * `one_line`: the printed form of a data value has no newline byte, so a data binding occupies
   exactly one line (`data_binding_line`);
 * `limit_skips`: with a length limit a binding's line is either the unlimited line or absent;
-* `QuoteRoundtrip` (the strconv.Quote / readString pair on ASCII) is STATED and checked on concrete strings only;
+* `quote_roundtrip`: for every string of bytes < 0x80 the lexer model's string reader applied to its quoted form
+  returns exactly the string and consumes exactly the literal (needs fix db71ff2);
 * `int_roundtrip`: the printed form of EVERY int64 evaluates back to it (`-9223372036854775808`
   included, after fix 61e5755).
 The full property (`Statement`) needs the composition of the lexer, parser and evaluator models on
-the printed text (`readBack`); it is proved for the part `Safe` (`partial`), the rest is covered by
+the printed text (`readBack`); it is proved for the part `Safe` = integers, booleans, nil, ASCII strings (`partial`), the rest is covered by
 the suite only.  See known_findings.json for what is false of the code (functions).
 -/
 namespace Grol.Save.C14
@@ -141,13 +142,13 @@ theorem limit_skips (fm : Fmt) (maxLen : Nat) (b : Binding) (line : Bytes)
 /-- (3) every int64 reads back from its printed form -/
 theorem int_roundtrip (i : Int64) : readIntText (intBytes i) = some i := Grol.Save.int_roundtrip i
 
-/-! ### (1) the Quote / readString pair — stated, not proved yet
+/-! ### (1) the Quote / readString pair
 
 `quoteBody` is the modelled part of strconv.Quote (bytes < 0x80); `Lexer.readString` is the lexer model's
-string reader, called just after the opening quote.  The statement is the intended theorem (by induction
-on `s`, one case per shape of `quoteByte`: plain byte, two-byte escape, `\xHH`); it is true only after fix
-db71ff2 (before it `\a \b \f \v` decoded to the letters).  Checked here on concrete strings by kernel
-evaluation, and on every string of every case by the `saveload` and `lex` suites. -/
+string reader, called just after the opening quote.  True only after fix db71ff2 (before it
+`\\a \\b \\f \\v` decoded to the letters).  Proof: `readLoop_quoted` (GrolProofs/SaveQuote.lean), by
+induction on `s`, one case per shape of `quoteByte` (plain byte, two-byte escape, `\\xHH`; the shape table
+over the 256 bytes is a finite `decide`). -/
 
 /-- what `readString` returns on `"<quoted s>"<post>`, started after the opening quote:
 (decoded bytes, terminated, position after the closing quote) -/
@@ -158,6 +159,35 @@ def readQuoted (body post : Bytes) : Bytes × Bool × Nat :=
 def QuoteRoundtrip : Prop :=
   ∀ (s body post : Bytes), quoteBody s = some body → readQuoted body post = (s, true, body.length + 2)
 
+/-- (1) for every byte string with all bytes < 0x80 (where `quoteBody` is defined), reading the quoted text
+back gives exactly the string and consumes exactly the literal, whatever follows it -/
+theorem quote_roundtrip : QuoteRoundtrip := by
+  intro s body post hb
+  unfold readQuoted Grol.Lexer.readString
+  have hsep : ((34 : UInt8) == 34) = true := by decide
+  have := readLoop_quoted s body hb [34] post
+    ((34 :: (body ++ 34 :: post)).toArray.size + 1 - 1)
+    { input := (34 :: (body ++ 34 :: post)).toArray, pos := 1 } (by simp) rfl (by simp <;> omega)
+  simp only [hsep] at this ⊢
+  rw [this]
+  simp
+  omega
+
+/-- every all-ASCII string has a quoted form -/
+theorem quoteBody_ascii (s : Bytes) (h : ∀ b ∈ s, b < 128) : ∃ body, quoteBody s = some body := by
+  induction s with
+  | nil => exact ⟨[], rfl⟩
+  | cons b rest ih =>
+    obtain ⟨r, hr⟩ := ih (fun x hx => h x (List.mem_cons_of_mem _ hx))
+    have hb : b < 128 := h b List.mem_cons_self
+    have : ∃ q, quoteByte b = some q := by
+      unfold quoteByte
+      rw [if_pos hb]
+      repeat' split
+      all_goals exact ⟨_, rfl⟩
+    obtain ⟨q, hq⟩ := this
+    exact ⟨q ++ r, by simp [quoteBody, hq, hr]⟩
+
 /-- bytes 7, 8, 11, 12 (the repaired escapes), quote, backslash, newline, CR, tab, NUL, DEL, letters -/
 example : (quoteBody [7, 8, 11, 12, 34, 92, 10, 13, 9, 0, 127, 65, 120]).map (fun body => readQuoted body [32, 34, 120]) =
     some ([7, 8, 11, 12, 34, 92, 10, 13, 9, 0, 127, 65, 120], true, 30) := by decide
@@ -167,14 +197,22 @@ example : (quoteBody []).map (fun body => readQuoted body []) = some ([], true, 
 /-! ### the property -/
 
 /-- the value a fresh session gives to the printed form of a scalar (the part of "load" that is
-composed from the models so far: integer literals with the prefix minus, `nil`, `true`, `false`);
-`none` = not composed yet (floats through strconv.ParseFloat, strings through the lexer model's
-`readString`, containers and functions through the parser and evaluator models) -/
+composed from the models so far: integer literals with the prefix minus, `nil`, `true`, `false`, string
+literals through the lexer model's `readString`);
+`none` = not composed yet (floats through strconv.ParseFloat, containers and functions through the parser and evaluator models) -/
 def readBack (t : Bytes) : Option Obj :=
   if t == nilB then some .null
   else if t == trueB then some (.bool true)
   else if t == falseB then some (.bool false)
-  else (readIntText t).map .int
+  else match readIntText t with
+    | some i => some (.int i)
+    | none =>
+      -- a string literal: the lexer model's reader must consume the whole text
+      match t with
+      | 34 :: _ =>
+        let r := Grol.Lexer.readString { input := t.toArray, pos := 1 } 34
+        if r.2.1 && r.2.2.pos == t.length then some (.str r.1) else none
+      | _ => none
 
 /-- C14 for data bindings, at full strength: whatever `SaveGlobals` writes for a data binding is one
 line `name=text`, and `text` evaluates back to the binding's value -/
@@ -183,10 +221,12 @@ def Statement : Prop :=
     ∀ p ∈ out, ∃ b ∈ store, p.1 = b.name ∧
       (isData b.val = true → ∃ text, p.2 = b.name ++ [61] ++ text ++ [10] ∧ NoNL text ∧ readBack text = some b.val)
 
-/-- the part for which the reading side is composed: integers (all of int64), booleans, nil -/
+/-- the part for which the reading side is composed: integers (all of int64), booleans, nil, strings of
+bytes below 0x80 -/
 def Safe (v : Obj) : Bool :=
   match v with
   | .null | .bool _ | .int _ => true
+  | .str s => s.all (· < 128)
   | _ => false
 
 def StatementAt (store : List Binding) : Prop :=
@@ -231,9 +271,24 @@ theorem readBack_printed (v : Obj) (hs : Safe v = true) (text : Bytes) (h : insp
     simp [inspectP, pure, Except.pure] at h; subst h
     have hk := intBytes_not_keyword i
     simp [readBack, hk.1, hk.2.1, hk.2.2, int_roundtrip]
+  | str sv =>
+    simp only [Safe, List.all_eq_true, decide_eq_true_eq] at hs
+    simp only [inspectP, stdFmt] at h
+    obtain ⟨body, hbody⟩ := quoteBody_ascii sv hs
+    simp [quoteAscii, hbody, pure, Except.pure] at h
+    subst h
+    have hq := quote_roundtrip sv body [] hbody
+    simp only [readQuoted, Prod.mk.injEq] at hq
+    obtain ⟨h1, h2, h3⟩ := hq
+    have hint : readIntText (34 :: (body ++ [34])) = none := by
+      simp [readIntText, parseDecInt, digitsVal]
+    simp only [readBack, nilB, trueB, falseB]
+    rw [if_neg (by simp), if_neg (by simp), if_neg (by simp), hint]
+    simp only [h1, h2, h3]
+    simp
   | _ => simp [Safe] at hs
 
-/-- the property holds for every store whose data bindings are integers, booleans and nil -/
+/-- the property holds for every store whose data bindings are integers, booleans, nil and ASCII strings -/
 theorem «partial» (store : List Binding) (hsafe : ∀ b ∈ store, isData b.val = true → Safe b.val = true) :
     StatementAt store := by
   intro out h p hp
@@ -247,7 +302,7 @@ theorem «partial» (store : List Binding) (hsafe : ∀ b ∈ store, isData b.va
 /-- non-vacuity: a store with both int64 extremes, a boolean, nil and a lambda -/
 def exampleStore : List Binding :=
   [⟨[120], false, .int (Int64.ofInt (-9223372036854775808))⟩, ⟨[97], false, .int 9223372036854775807⟩,
-   ⟨[98], false, .bool true⟩, ⟨[110], false, .null⟩,
+   ⟨[98], false, .bool true⟩, ⟨[110], false, .null⟩, ⟨[115], false, .str [7, 8, 11, 12, 34, 92, 10, 0, 127, 65]⟩,
    ⟨[102], false, .func { name := none, params := [], variadic := false, lambda := true, key := "x=>x", body := .none, env := 0 }⟩]
 
 example : ∀ b ∈ exampleStore, isData b.val = true → Safe b.val = true := by decide
